@@ -45,7 +45,7 @@ def copiesFin (kind : String) : Nat :=
 
 def thr (kind : String) (n : Nat) : String :=
   let threads := if kind == "inv" then n - 1 else n
-  let c := runToEnd threads (kind == "sub" || kind == "grp" || kind == "reap")
+  let c := runToEnd threads (kind == "sub" || kind == "grp" || kind == "grp3" || kind == "reap")
   let ran := (List.range threads).map c.ran
   let viaCopy := kind == "cpy" || kind == "cpd" || kind == "cpj" || kind == "sst"
   let fin := (List.range threads).map fun j => if viaCopy then copiesFin kind else if c.finished j then 1 else 0
